@@ -26,6 +26,7 @@ RULE = (
     'diff of a configuration with its deep copy is empty. Fiddle\'s own == is not used. '
     'Non-trivial: the pair differs in >=2 edit kinds including an aliasing edit or a callable swap.'
 )
+RULE += (' ' + 'Also generated: callables with **kwargs (kwf/kwg, identical signatures), tags on **kwargs arguments, and a callable swap assembled without update_callable.')
 ASSUMPTIONS = [
     'alignment heuristics admit many valid diffs; only the round trip is judged',
     'roots are Buildables of the same type (property precondition)',
